@@ -380,6 +380,9 @@ pub enum Stray {
     Run,
     Consts { from: u64, nonempty: bool },
     Msg { from: u64, empty: bool },
+    /// a further validate for a state machine that exists (answered by the harness with NotFound
+    /// when it does not)
+    ValidateDup { wrong_hash: bool },
 }
 
 #[derive(Clone, Debug, PartialEq, Eq, Hash, PartialOrd, Ord, Serialize, Deserialize)]
@@ -689,6 +692,16 @@ impl Driver {
                             v.program_hash = "0000".into();
                             w.get_or_insert(party as usize, comp).validate(v).await.map_err(|e| format!("{e:?}"))
                         }
+                        Stray::ValidateDup { wrong_hash } => match w.existing(party as usize, &comp) {
+                            Some(h) => {
+                                let mut v = ValidateRequest::from(&base);
+                                if *wrong_hash {
+                                    v.program_hash = "0000".into();
+                                }
+                                h.validate(v).await.map_err(|e| format!("{e:?}"))
+                            }
+                            None => Err("NotFound".into()),
+                        },
                         Stray::Run => match w.existing(party as usize, &comp) {
                             Some(h) => h.run(RunRequest { computation_id: comp }).await.map_err(|e| format!("{e:?}")),
                             None => Err("NotFound".into()),
